@@ -35,6 +35,7 @@ TraceNext ==
    \/ IsEv("reopen") /\ Reopen /\ Post
    \/ IsEv("modify") /\ Modify(Ev.arg[1]) /\ Post
    \/ IsEv("delete") /\ Delete(Ev.arg[1]) /\ Post
+   \/ IsEv("damage") /\ Damage(Ev.arg[1]) /\ Post
    \/ IsEv("restore") /\ Restore(Ev.t) /\ Post
    \/ IsEv("remodel") /\ Remodel(Ev.t, Ev.o) /\ Post
 TraceSpec == TraceInit /\ [][TraceNext]_tvars
